@@ -532,7 +532,9 @@ func runEach(t *testing.T, cases []xcase) map[string]xverdict {
 			mu.Lock()
 			defer mu.Unlock()
 			if err != nil {
-				t.Errorf("VERIF-INFRA: %v\n%s", err, tail)
+				if t != nil {
+					t.Errorf("VERIF-INFRA: %v\n%s", err, tail)
+				}
 				return
 			}
 			out[c.key()] = judge(c, results, tail)
@@ -624,6 +626,55 @@ func noteExtreme(c xcase, v xverdict) {
 	})
 }
 
+func uncheckedCases() []xcase {
+	var cs []xcase
+	for _, op := range []byte{ref.OpPing, ref.OpPong, ref.OpClose} {
+		for _, l := range append([]int64{126, 65536, capLen + 1}, lengthTable...) {
+			for _, m := range []bool{false, true} {
+				cs = append(cs, xcase{Entry: "ControlHandler(unchecked)", Length: l, Masked: m, Op: op})
+			}
+		}
+	}
+	return cs
+}
+
+var (
+	uncheckedOnce     sync.Once
+	uncheckedVerdicts map[string]xverdict
+	uncheckedBad      bool
+)
+
+// uncheckedProbe runs ControlHandler.Handle over unchecked control headers of
+// every table length in child processes (once per process).
+func uncheckedProbe() {
+	uncheckedOnce.Do(func() {
+		if os.Getenv(childEnv) != "" {
+			return
+		}
+		uncheckedVerdicts = runBatches(nil, uncheckedCases(), 20)
+		for _, c := range uncheckedCases() {
+			v, ok := uncheckedVerdicts[c.key()]
+			if !ok || v.bad {
+				uncheckedBad = true
+			}
+			// announced > 125 has to be refused, not read: at most the handler's small fixed allocations
+			if ok && !v.bad && v.res.Alloc > 1<<16 {
+				v.bad, v.symptom = true, fmt.Sprintf("allocated %d bytes for a control frame announcing %d bytes (the payload limit is 125)", v.res.Alloc, c.Length)
+				uncheckedVerdicts[c.key()] = v
+				uncheckedBad = true
+			}
+		}
+	})
+}
+
+// uncheckedPresent reports whether ControlHandler still sizes an allocation
+// by the Length of an unchecked header; the in-process search then keeps
+// announcements above inProcCap away from it (the probe reports the defect).
+func uncheckedPresent() bool {
+	uncheckedProbe()
+	return uncheckedBad
+}
+
 // TestKnownFindings probes the listed signatures on the tree under test.
 func TestKnownFindings(t *testing.T) {
 	f7Probe()
@@ -650,18 +701,15 @@ func TestKnownFindings(t *testing.T) {
 	hx.Probe(t, sigF7, what, len(ds) > 0, ds)
 
 	// ControlHandler.Handle with a header that was not run through ws.CheckHeader
-	var cs []xcase
-	for _, op := range []byte{ref.OpPing, ref.OpPong, ref.OpClose} {
-		for _, l := range lengthTable {
-			for _, m := range []bool{false, true} {
-				cs = append(cs, xcase{Entry: "ControlHandler(unchecked)", Length: l, Masked: m, Op: op})
-			}
-		}
-	}
-	vs := runBatches(t, cs, 14)
+	uncheckedProbe()
+	cs, vs := uncheckedCases(), uncheckedVerdicts
 	var us []desc
 	for _, c := range cs {
-		if v, ok := vs[c.key()]; ok && v.bad {
+		hx.Eval()
+		hx.Class("extreme/ControlHandler(unchecked)/" + c.opName())
+		if v, ok := vs[c.key()]; !ok {
+			t.Errorf("VERIF-INFRA: no verdict for %s", c.key())
+		} else if v.bad {
 			us = append(us, desc{c, c.inputDesc(), v.symptom})
 			if len(us) <= 2 {
 				t.Logf("ControlHandler.Handle(unchecked header) op=%#x announced=%d masked=%v: %s", c.Op, c.Length, c.Masked, v.symptom)
